@@ -143,6 +143,21 @@ def cond_facts(c, m):
                     eq_f.append(("nonnul", k[0], k[1]))
                     if k[1] == 0:
                         eq_t.append(("pfx", k[0]))      # a NUL here: certainly no "0x" prefix at this position
+        elif a.inst is not None and a.inst.op == "call" and a.inst.callee == "strncmp" and b.uval == 0 and len(a.inst.args) == 3 \
+                and a.inst.args[2].is_const_int():
+            # strncmp(s + o, "lit", n) == 0: the first min(n, len(lit)) bytes at s + o are the literal's, so none of them is NUL
+            args = a.inst.args
+            for sp, lp in ((args[0], args[1]), (args[1], args[0])):
+                lit = literal_of(lp, m)
+                k = pkey(sp, m)
+                if lit is None or k is None:
+                    continue
+                n = min(args[2].uval, len(lit))
+                for j in range(n):
+                    eq_t.append(("nonnul", k[0], k[1] + j))
+                if k[1] == 0 and lit[:1] == "0" and n >= 1:
+                    eq_t.append(("pfx", k[0]))
+                    eq_f.append(("pfx", k[0]))
         else:
             ld = ctype_byte(a)
             if ld is not None and b.uval == 0:
@@ -214,6 +229,15 @@ class Cursor:
                 k = pkey(i.ops[0], m)
                 if k == (self.cur_arg, 0):
                     S.add(("src", i.name))
+                    # a second read of the cursor cell with no store in between yields the same pointer: what is known about
+                    # the cell's content (r + o) holds for the new name
+                    for pv in [f for f in S if f[0] == "pval"]:
+                        r, o = pv[1], pv[2]
+                        for f in list(S):
+                            if f[0] in ("instr", "nonnul") and f[1] == r:
+                                S.add((f[0], i.name, f[2] - o))
+                            if o == 0 and f[0] in ("src", "chr", "nnp", "null") and f[1] == r:
+                                S.add((f[0], i.name))
                     S = set(f for f in S if f[0] != "pval")
                     S.add(("pval", i.name, 0))
             elif i.op == "store" and i.ops[0].ty == "i8*":
@@ -244,6 +268,32 @@ class Cursor:
                     S.add(("chr", i.name))
                 if c.is_const_int() and c.uval == ord(":"):
                     S.add(("no-nl",))           # the 'address:' prefix of this line has been looked for
+            elif i.op == "call" and i.callee == "strncmp":
+                # reads from each operand until a difference, a NUL or n bytes: fine when it starts inside the string
+                for a in i.args[:2]:
+                    if literal_of(a, m) is not None:
+                        continue
+                    k = pkey(a, m)
+                    if check:
+                        self.n_advances += 1
+                        ok = k is not None and ("instr", k[0], k[1]) in S
+                        self.findings.append(("H1.scan-start-in-string", i, ok,
+                                              "strncmp starts at %s%+d, %s" % (k[0] if k else "?", k[1] if k else 0,
+                                                                              "inside the string" if ok else "not known to be inside the string")))
+            elif i.op == "call" and i.callee in ("memcmp", "bcmp") and len(i.args) == 3:
+                # reads n bytes of each operand whatever they hold: all n must be inside the string
+                n = i.args[2].uval if i.args[2].is_const_int() else None
+                for a in i.args[:2]:
+                    if literal_of(a, m) is not None:
+                        continue
+                    k = pkey(a, m)
+                    if check:
+                        self.n_advances += 1
+                        ok = k is not None and n is not None and all(("instr", k[0], k[1] + j) in S for j in range(n))
+                        self.findings.append(("H1.load-in-string", i, ok,
+                                              "%s reads %s bytes at %s%+d: %s" % (i.callee, n, k[0] if k else "?", k[1] if k else 0,
+                                                                                  "all inside the string" if ok else
+                                                                                  "not all known to be inside the string (unlike strncmp it does not stop at the NUL)")))
             elif i.op == "call" and i.callee in ("strspn", "strcspn"):
                 k = pkey(i.args[0], m)
                 if check:
